@@ -20,6 +20,7 @@ ADDR = re.compile(r'0x[0-9a-f]+')
 RULE = "programs: (i) type-directed programs of G2 (all node kinds, lambdas driven by map/filter/reduce/sorted) extended with host probes emit(...), host callbacks hm(f, n), try_(f, ...) (which swallows the error and lets the program continue) and reenter(k) (which evaluates another program on the same parser while the call is in flight); (ii) scoping scenarios with recursive and re-entrant lambdas; (iii) a program lambda handed to every entry of the function table; (iv) helper lambdas compiled by the host and supplied through ast_names, called repeatedly; each on a plain parser and on one with a parse cache (the same text evaluated repeatedly). For every program: one 'unbounded' run (budget 20000), then every budget N in 1..min(T+2, 60), random N up to T+2, and the default. Histories: 2-6 eval calls sharing one names mapping, call i defining a lambda that call j > i invokes under a different budget. Non-trivial = a (program, N) pair in which the run was compared with the unbounded run (threshold, abort point, monotonicity, effect prefix, counter equality); distinct = distinct (program text, N, parser kind)."
 RULE += ' Every program also runs under two budgets far above any need (10^6 ... 10^20000, integers too long to print included).'
 RULE += ' Host values objs(f, n) whose __eq__/__lt__/__bool__/__str__ call the program lambda f are searched, sorted, compared, tested and printed by builtins (the callbacks are charged to the call).'
+RULE += " One more workload: the repository's own test-suite run under the node monitor (per VM state: operations charged == node evaluations observed <= budget)."
 ASSUMPTIONS = ['an operation = one evaluation of a syntax-tree node, counted by M1 at the entry of every concrete node class\'s eval (independent of Op.eval)',
                'a run with budget N returns normally iff the unbounded run needs T < N operations; otherwise it raises the ops-limit error at the N-th node entry, before any effect of that node',
                'host-visible effects = probe calls, writes to the host names mapping, mutator calls (each logged with its arguments); an aborted run\'s log must be a prefix of the unbounded run\'s']
@@ -221,6 +222,8 @@ def gen_case_program(r):
 
 def cases(ctx):
     rnd = ctx.rnd
+    if ctx.shard == ctx.nshards - 1:
+        yield ('repo-tests',)
     if ctx.shard == 0:
         for src in ['1 + 2', 'emit(1)\nemit(2)\nemit(3)', 'x = 5\ny = x + 1\nemit(y)', 'map([1, 2, 3], v => emit(v))', 'sorted([3, 1, 2], v => 0 - v)',
                     'hm(v => emit(v), 3)', 'emit(1)\nreenter(1)\nmap([1, 2, 3, 4, 5, 6, 7, 8, 9, 10], v => emit(v))', 'try_(v => hm(w => emit(w), 5), 0)\nemit("after")', 'f = n => 0 if n < 1 else n + f(n - 1)\nf(5)', '']:
@@ -316,8 +319,30 @@ def judge_pair(ctx, case, src, N, unb, run, what_prefix=''):
     return None
 
 
+def run_repo_tests(case, ctx):
+    """the repository's own tests as a workload: for every VM state they create, operations charged == node evaluations observed, and never more than the budget"""
+    from lib import repotests
+    rec = Recorder(ctx)
+    ctx.rec[0] = rec
+    repotests.run(ctx)
+    n = 0
+    for sid, st in rec.state_objs.items():
+        n += 1
+        seen = rec.states[sid]
+        if st.ops_evaluated != seen:
+            ctx.violation('the implementation charged %s operations, %d node evaluations were observed' % (st.ops_evaluated, seen), case, detail={'workload': 'repository test-suite'})
+            break
+        if st.ops_evaluated > st.max_ops_evaluated:
+            ctx.violation('%d operations were started under a budget of %s' % (st.ops_evaluated, fmtN(st.max_ops_evaluated)), case, detail={'workload': 'repository test-suite'})
+            break
+    ctx.count('vm_states_of_the_repository_tests_checked', n)
+    ctx.rec[0] = Recorder(ctx)
+
+
 def run_case(case, ctx):
     kind = case[0]
+    if kind == 'repo-tests':
+        return run_repo_tests(case, ctx)
     if kind in ('prog', 'gen'):
         if kind == 'prog':
             src, body, cached = case[1], case[2], case[3]
